@@ -143,8 +143,7 @@ def tail_index(e):
     return None
 
 
-def window(ctx, F):
-    r = "R-01.3"
+def window(ctx, F, r="R-01.3"):
     ctx.rule(r, "six salted bucket increments per window with reference byte ages, checksum fed (age0, age1), shuffle advances ages by one", "N")
     bs = F.method("update", "generate::inner::Generator<")
     if len(bs) != 1:
@@ -243,8 +242,7 @@ def window(ctx, F):
 # ------------------------------------------------------------------ R-01.4
 
 
-def checksum_rec(ctx, F):
-    r = "R-01.4"
+def checksum_rec(ctx, F, r="R-01.4"):
     ctx.rule(r, "checksum recurrences: data[0]<-b_mapping(0,cur,prev,data[0]); 3-byte form chains map256 on the NEW previous byte", "N")
     found = {1: 0, 3: 0}
     BM = "buckets::constrained::FuzzyHashBucketMapper::b_mapping"
